@@ -35,4 +35,6 @@ type Healthy interface {
 	// Blank has an additional argument nobody named.
 	// :@H2@
 	Blank(src *Src, _ int) *Dst
+	// WithCause has an additional argument of the predeclared type error (a type without package).
+	WithCause(src *Src, cause error) *Dst
 }
